@@ -1,7 +1,7 @@
 """C03 - Decoded genotypes follow nearest-mutation inheritance and missing-data rules (structural clauses)."""
 from __future__ import annotations
 
-from . import lib_variant, lib_module, lib_py, lib_guards
+from . import lib_variant, lib_module, lib_py, lib_guards, lib_vcf
 
 LEVEL = "other"
 EXPLANATION = ("Event order and conditions in tsk_variant_decode, unconditional child pushes in every traversal, isolated_as_missing "
@@ -14,6 +14,7 @@ def run(ctx):
     py = ctx.python()
     lib_variant.variant_decode(ctx, P)
     lib_variant.traversal_push(ctx, P)
+    lib_vcf.mark_missing(ctx, P)
     lib_module.options_plumbing(ctx, P, funcs={"Variant_init"})
     lib_module.array_flags(ctx, P)
     lib_module.parsed_used(ctx, P)
